@@ -209,7 +209,7 @@ pub fn run(config: Config) -> Result<()> {
             .watch(Path::new(&watch), RecursiveMode::NonRecursive)
             .map_err(SvgdxError::from_err)?;
         transform_file(&watch, &config.output_path, &config.transform).unwrap_or_else(|e| {
-            eprintln!("transform failed: {e:?}");
+            eprintln!("transform failed: {e}");
         });
         eprintln!("Watching {watch} for changes");
         loop {
@@ -220,7 +220,7 @@ pub fn run(config: Config) -> Result<()> {
                             eprintln!("{} changed", event.path.to_string_lossy());
                             transform_file(&watch, &config.output_path, &config.transform)
                                 .unwrap_or_else(|e| {
-                                    eprintln!("transform failed: {e:?}");
+                                    eprintln!("transform failed: {e}");
                                 });
                         }
                     }
